@@ -78,6 +78,8 @@ def probes(serial):
     P['nopass'] = base + ['-1 X s1.svc %s :OK' % tag, '-1 X s2.svc %s :OK' % tag, '1 H']
     P['untrusted-ident'] = ['1 C 10.0.0.1 1111 10.9.9.9 6667', '1 N host1.example.net', '1 u ~ident1', '1 n Nick1', '1 U user1 :Real Name', '-1 X s1.svc %s :OK' % tag, '-1 X s2.svc %s :OK' % tag, '1 H']
     P['hurry'] = ['1 C 10.0.0.1 1111 10.9.9.9 6667', '1 P :+x kb1 pw', '1 H', '-1 X s2.svc %s :OK kb1:3' % tag, '-1 X s1.svc %s :OK kb1:3' % tag]
+    # account-only visibility demanded: accepted only with a stamp (whatever the table offers for getting one)
+    P['bang'] = base + ['1 P :+x! ka1 pw', '1 H', '-1 X s2.svc %s :OK' % tag, '-1 X s1.svc %s :OK' % tag, '-1 X s1.svc %s :OK ka1:7' % tag, '-1 ? stats']
     return P
 
 
@@ -189,7 +191,7 @@ def tstr(universe, t):
     return '{%s}' % ', '.join('%s %s' % (n, ' '.join('%s=%s' % kv for kv in sorted(r.items()))) for n, r in rule_table(t))
 
 
-def e3_sigusr1(run, b, universe, seqs, fresh):
+def e3_sigusr1(run, b, universe, seqs, fresh, symlink=False):
     """The same differential through the unmodified daemon: rewrite the file, send SIGUSR1, run one probe over the real pipe."""
     n = 0
     tables = _G['tables'][universe]
@@ -197,14 +199,13 @@ def e3_sigusr1(run, b, universe, seqs, fresh):
     mods = ('iauth', 'iauth_xquery', 'iauth_class')
     LOGS = ['"core.info" "file:reload.log"']      # the daemon logs "Re-reading config file due to signal" right before conf_read()
     for t0i, seq in seqs:
-        d = e3.Daemon(conf_for(moddir, universe, tables[t0i], modules=mods, logs=LOGS), b=b)
+        d = e3.Daemon(conf_for(moddir, universe, tables[t0i], modules=mods, logs=LOGS), b=b, symlink=symlink)
         try:
             if not d.wait_banner():
                 raise common.HarnessError('E3 daemon did not start')
             logp = os.path.join(d.dir, 'reload.log')
             for k, i in enumerate(seq):
-                with open(d.conf_path, 'w') as f:
-                    f.write(conf_for(moddir, universe, tables[i], modules=mods, logs=LOGS))
+                d.publish(conf_for(moddir, universe, tables[i], modules=mods, logs=LOGS))
                 try:
                     size0 = os.path.getsize(logp)
                 except OSError:
@@ -237,9 +238,9 @@ def e3_sigusr1(run, b, universe, seqs, fresh):
         miss = [l for l in want if l not in have and not l.startswith(('A ', 'a'))]
         extra = [l for l in have if (l.startswith('X ') or l[:2] in ('D ', 'R ', 'k ')) and l not in want]
         if rc != 0 or miss or extra:
-            run.violation('C17.sigusr1/' + universe, 'after SIGUSR1 reloads %s (started on %s) the unmodified daemon answers the probe differently from a fresh start: missing %r, unexpected %r, exit %s'
+            run.violation('C17.sigusr1/' + universe, 'after SIGUSR1 reloads %s' % ('(the -f path is a symbolic link that is re-pointed to each new file) ' if symlink else '') + '%s (started on %s) the unmodified daemon answers the probe differently from a fresh start: missing %r, unexpected %r, exit %s'
                           % ([tstr(universe, tables[i]) for i in seq], tstr(universe, tables[t0i]), miss[:3], extra[:3], rc),
-                          {'engine': 'E3', 'universe': universe, 't0': t0i, 'seq': list(seq)}, dedup='sig|' + universe)
+                          {'engine': 'E3', 'universe': universe, 't0': t0i, 'seq': list(seq), 'symlink': symlink}, dedup='sig|' + universe + str(symlink))
         n += 1
     return n
 
@@ -307,6 +308,7 @@ def main(tier):
             if not quick:
                 seqs += [(t0, (a, c)) for t0 in range(0, nt, 3) for a in range(1, nt, 4) for c in range(2, nt, 5)]
             nsig += e3_sigusr1(run, b, u, seqs, fresh)
+            nsig += e3_sigusr1(run, b, u, seqs[:6], fresh, symlink=True)       # the configuration published by re-pointing a symbolic link
     if nseq < 500 and not run.violations and not run.capped:
         raise common.HarnessError('vacuous: %d sequences' % nseq)
     distinct_fresh = len({repr(sorted(v.items())) for v in fresh.values()})
